@@ -27,14 +27,14 @@ import (
 func init() { vh.Register("C16", Run) }
 
 type replayCase struct {
-	Kind string            `json:"kind"` // prog | struct | order (Type + snippet = field)
-	Name string            `json:"name,omitempty"`
-	Tags []string          `json:"tags,omitempty"`
-	Src  string            `json:"src,omitempty"`
-	Libs map[string]string `json:"libs,omitempty"`
-	Type string            `json:"type,omitempty"`
-	Snip string            `json:"snippet,omitempty"`
-	Scalar *scalarReplay   `json:"scalar,omitempty"` // kind scalar: field, payload, depth (scalarprobe.go)
+	Kind   string            `json:"kind"` // prog | struct | order (Type + snippet = field)
+	Name   string            `json:"name,omitempty"`
+	Tags   []string          `json:"tags,omitempty"`
+	Src    string            `json:"src,omitempty"`
+	Libs   map[string]string `json:"libs,omitempty"`
+	Type   string            `json:"type,omitempty"`
+	Snip   string            `json:"snippet,omitempty"`
+	Scalar *scalarReplay     `json:"scalar,omitempty"` // kind scalar: field, payload, depth (scalarprobe.go)
 }
 
 func caseOf(p *Prog) replayCase {
@@ -77,11 +77,11 @@ func diffWhat(p *Prog, c, i Obs) string {
 }
 
 type runner struct {
-	c        *vh.Ctx
-	batchNo  int
-	explore  *os.File
-	failing  []*Prog // mix/safe programs that differed (for the shrink batch)
-	timeout  time.Duration
+	c       *vh.Ctx
+	batchNo int
+	explore *os.File
+	failing []*Prog // mix/safe programs that differed (for the shrink batch)
+	timeout time.Duration
 }
 
 // judge compares the two runs of every program of a finished batch.
